@@ -104,6 +104,9 @@ impl<'a> WireFormat<'a> for ResourceRecord<'a> {
     where
         Self: Sized,
     {
+        #[cfg(simple_dns_verif)]
+        crate::dns::verif::record(20, *position, 0, 0);
+
         let name = Name::parse(data, position)?;
         if *position + 8 > data.len() {
             return Err(crate::SimpleDnsError::InsufficientData);
